@@ -3,7 +3,14 @@
                                 <nT> { <topic> <parts_ok> <np> { <pid> <leader|-1> <kerror> <noffs> <off>* } }
                                 <nF> <failing broker>* }
    Output: cycles joined by " | "; a cycle is  M<refresh attempted> F<fetchMetadata after> R <b:t:p,..|-> U <t:p:off:count,..|-> D <t,..|->
-           or CRASH (the process died in that cycle; nothing follows). *)
+           or CRASH (the process died in that cycle; nothing follows).
+   Second format (storage-scripted; the suffix of the kind only routes the case inside the probe):
+           sc2|sc2x|sc2s|sc2w <kafka-version index> <ncycles> { <sd> <su> <rp> <rm> <cycle as above> }
+     sd: storage stalls at the start of the cycle (only delays: SetDeleteTopic is a blocking send)
+     su: storage takes no broker-offset update within the 1 s timeout in this cycle (storage_beh = fun _ => false)
+     rp: a groups-reaper tick follows the cycle;  rm: client.RefreshMetadata returns an error   (both: no effect on
+     the model; kept in the tie, like the kafka-version)
+     U = the updates the storage module RECEIVED, D = the deletions it received (ClusterMod.run_s / received). *)
 open Model
 open Vutil
 
@@ -46,10 +53,34 @@ let fmt_cycle ((pre, o) : bool * cycle_out outcome) : string =
           "U"; csv (List.map (fun (((tp, p), off), c) -> [z tp; z p; z off; z c]) o.co_updates);
           "D"; csv (List.map (fun tp -> [z tp]) o.co_deletes) ]
 
+let read_cycle_s t : (bool * env) * storage_beh =
+  let _sd = next_int t in
+  let su = next_int t = 1 in
+  let _rp = next_int t in
+  let _rm = next_int t in
+  let c = read_cycle t in
+  (c, (if su then (fun _ -> false) else prompt))
+
+let fmt_cycle_s ((pre, o) : bool * (cycle_out * sreq list) outcome) : string =
+  match o with
+  | Crash -> "CRASH"
+  | Done (o, sv_out) ->
+    let z = zt_of_coqz in
+    let ups = List.concat_map (fun r -> match r with SBrokerOffset u -> [u] | SDeleteTopic _ -> []) sv_out in
+    let dels = List.concat_map (fun r -> match r with SDeleteTopic tp -> [tp] | SBrokerOffset _ -> []) sv_out in
+    cat [ "M" ^ b01 pre; "F" ^ b01 o.co_state.fetchMetadata;
+          "R"; csv (List.map (fun ((b, tp), p) -> [z b; z tp; z p]) o.co_asks);
+          "U"; csv (List.map (fun (((tp, p), off), c) -> [z tp; z p; z off; z c]) ups);
+          "D"; csv (List.map (fun tp -> [z tp]) dels) ]
+
 let run (line : string) : string =
   let t = toks_of_line line in
   match next t with
   | "scn" | "scnx" ->
     let cycles = next_list t read_cycle in
     String.concat " | " (List.map fmt_cycle (run init_state cycles))
+  | "sc2" | "sc2x" | "sc2s" | "sc2w" ->
+    let _kv = next_int t in
+    let cycles = next_list t read_cycle_s in
+    String.concat " | " (List.map fmt_cycle_s (run_s init_state cycles))
   | k -> failwith ("drv_cluster: unknown case kind " ^ k)
